@@ -10,9 +10,21 @@ Base/Res.vos Base/Res.vok Base/Res.required_vos: Base/Res.v
 Gen/Consts.vo Gen/Consts.glob Gen/Consts.v.beautified Gen/Consts.required_vo: Gen/Consts.v 
 Gen/Consts.vio: Gen/Consts.v 
 Gen/Consts.vos Gen/Consts.vok Gen/Consts.required_vos: Gen/Consts.v 
+Gen/IoConsts.vo Gen/IoConsts.glob Gen/IoConsts.v.beautified Gen/IoConsts.required_vo: Gen/IoConsts.v 
+Gen/IoConsts.vio: Gen/IoConsts.v 
+Gen/IoConsts.vos Gen/IoConsts.vok Gen/IoConsts.required_vos: Gen/IoConsts.v 
+Model/Framing.vo Model/Framing.glob Model/Framing.v.beautified Model/Framing.required_vo: Model/Framing.v Base/Res.vo Base/Octets.vo Base/ListX.vo Gen/IoConsts.vo
+Model/Framing.vio: Model/Framing.v Base/Res.vio Base/Octets.vio Base/ListX.vio Gen/IoConsts.vio
+Model/Framing.vos Model/Framing.vok Model/Framing.required_vos: Model/Framing.v Base/Res.vos Base/Octets.vos Base/ListX.vos Gen/IoConsts.vos
 Model/NameWire.vo Model/NameWire.glob Model/NameWire.v.beautified Model/NameWire.required_vo: Model/NameWire.v Base/Res.vo Base/Octets.vo Gen/Consts.vo
 Model/NameWire.vio: Model/NameWire.v Base/Res.vio Base/Octets.vio Gen/Consts.vio
 Model/NameWire.vos Model/NameWire.vok Model/NameWire.required_vos: Model/NameWire.v Base/Res.vos Base/Octets.vos Gen/Consts.vos
+Proofs/FramingP.vo Proofs/FramingP.glob Proofs/FramingP.v.beautified Proofs/FramingP.required_vo: Proofs/FramingP.v Base/Res.vo Base/Octets.vo Base/ListX.vo Model/Framing.vo Spec/FramingS.vo Proofs/FramingSP.vo
+Proofs/FramingP.vio: Proofs/FramingP.v Base/Res.vio Base/Octets.vio Base/ListX.vio Model/Framing.vio Spec/FramingS.vio Proofs/FramingSP.vio
+Proofs/FramingP.vos Proofs/FramingP.vok Proofs/FramingP.required_vos: Proofs/FramingP.v Base/Res.vos Base/Octets.vos Base/ListX.vos Model/Framing.vos Spec/FramingS.vos Proofs/FramingSP.vos
+Proofs/FramingSP.vo Proofs/FramingSP.glob Proofs/FramingSP.v.beautified Proofs/FramingSP.required_vo: Proofs/FramingSP.v Base/Res.vo Base/Octets.vo Base/ListX.vo Spec/FramingS.vo
+Proofs/FramingSP.vio: Proofs/FramingSP.v Base/Res.vio Base/Octets.vio Base/ListX.vio Spec/FramingS.vio
+Proofs/FramingSP.vos Proofs/FramingSP.vok Proofs/FramingSP.required_vos: Proofs/FramingSP.v Base/Res.vos Base/Octets.vos Base/ListX.vos Spec/FramingS.vos
 Proofs/NameWireP.vo Proofs/NameWireP.glob Proofs/NameWireP.v.beautified Proofs/NameWireP.required_vo: Proofs/NameWireP.v Base/ListX.vo Model/NameWire.vo Spec/NameWireS.vo Spec/NameRepr.vo
 Proofs/NameWireP.vio: Proofs/NameWireP.v Base/ListX.vio Model/NameWire.vio Spec/NameWireS.vio Spec/NameRepr.vio
 Proofs/NameWireP.vos Proofs/NameWireP.vok Proofs/NameWireP.required_vos: Proofs/NameWireP.v Base/ListX.vos Model/NameWire.vos Spec/NameWireS.vos Spec/NameRepr.vos
@@ -22,6 +34,12 @@ Proofs/NameWireSP.vos Proofs/NameWireSP.vok Proofs/NameWireSP.required_vos: Proo
 Props/C14.vo Props/C14.glob Props/C14.v.beautified Props/C14.required_vo: Props/C14.v Base/ListX.vo Model/NameWire.vo Spec/NameWireS.vo Spec/NameRepr.vo Proofs/NameWireP.vo Proofs/NameWireSP.vo
 Props/C14.vio: Props/C14.v Base/ListX.vio Model/NameWire.vio Spec/NameWireS.vio Spec/NameRepr.vio Proofs/NameWireP.vio Proofs/NameWireSP.vio
 Props/C14.vos Props/C14.vok Props/C14.required_vos: Props/C14.v Base/ListX.vos Model/NameWire.vos Spec/NameWireS.vos Spec/NameRepr.vos Proofs/NameWireP.vos Proofs/NameWireSP.vos
+Props/C30.vo Props/C30.glob Props/C30.v.beautified Props/C30.required_vo: Props/C30.v Base/Res.vo Base/Octets.vo Base/ListX.vo Gen/IoConsts.vo Model/Framing.vo Spec/FramingS.vo Proofs/FramingSP.vo Proofs/FramingP.vo
+Props/C30.vio: Props/C30.v Base/Res.vio Base/Octets.vio Base/ListX.vio Gen/IoConsts.vio Model/Framing.vio Spec/FramingS.vio Proofs/FramingSP.vio Proofs/FramingP.vio
+Props/C30.vos Props/C30.vok Props/C30.required_vos: Props/C30.v Base/Res.vos Base/Octets.vos Base/ListX.vos Gen/IoConsts.vos Model/Framing.vos Spec/FramingS.vos Proofs/FramingSP.vos Proofs/FramingP.vos
+Spec/FramingS.vo Spec/FramingS.glob Spec/FramingS.v.beautified Spec/FramingS.required_vo: Spec/FramingS.v Base/Res.vo Base/Octets.vo
+Spec/FramingS.vio: Spec/FramingS.v Base/Res.vio Base/Octets.vio
+Spec/FramingS.vos Spec/FramingS.vok Spec/FramingS.required_vos: Spec/FramingS.v Base/Res.vos Base/Octets.vos
 Spec/NameRepr.vo Spec/NameRepr.glob Spec/NameRepr.v.beautified Spec/NameRepr.required_vo: Spec/NameRepr.v Model/NameWire.vo Spec/NameWireS.vo
 Spec/NameRepr.vio: Spec/NameRepr.v Model/NameWire.vio Spec/NameWireS.vio
 Spec/NameRepr.vos Spec/NameRepr.vok Spec/NameRepr.required_vos: Spec/NameRepr.v Model/NameWire.vos Spec/NameWireS.vos
